@@ -3,6 +3,7 @@ import Spec
 import Gen
 import Props.C10
 import Props.C11
+import Proofs.ConnWrite
 /-!
   C16 — answers mirror the request they answer. Theorems about `Msg.answer`
   (`Message.Answer`); `r1 r2` stand for whatever `rand.Uint32()` would return inside
@@ -71,8 +72,27 @@ theorem C16_dwa (cfg : Settings) (req : Header) (hf : req.flags < 256) :
   have h := DV.Props.C10.C13_dwa_fields cfg req hf
   exact ⟨h.1, h.2.1, h.2.2.1, h.2.2.2.1, h.2.2.2.2.1, h.2.2.2.2.2.1⟩
 
-/-- obligations on the regenerated constants the model hard-codes -/
-theorem C16_gen : Gen.RequestFlag = 128 ∧ Gen.InvalidStreamID = invalidStream ∧ Gen.Mbit = 64 := by decide
+/-- Answers written at the same time keep their streams: `response.WriteStream` hands the stream
+    to the association together with the bytes (`Gen.responseWriteStreamExits`), so in every
+    interleaving of any number of writing goroutines each message the association is given
+    carries the stream of the write that produced it. -/
+theorem C16_concurrent_streams (es : List SWEv) :
+    ∀ p ∈ (({} : SWState).run true es).log, SWEv.write p.1 p.2 ∈ es := by
+  intro p hp
+  rcases SW_direct es {} p hp with h | h
+  · simp at h
+  · exact h
+
+/-- ... whereas selecting the association's writer stream first and writing afterwards lets
+    another goroutine's selection in between: answer 1, for stream 3, leaves on stream 9 -/
+theorem C16_select_then_write_counterexample :
+    (({} : SWState).run false [.select 1 3, .select 2 9, .write 1 3, .write 2 9]).log = [(1, 9), (2, 9)] := by
+  decide
+
+/-- obligations on the regenerated constants the model hard-codes, and on the shape of
+    `response.WriteStream` -/
+theorem C16_gen : Gen.RequestFlag = 128 ∧ Gen.InvalidStreamID = invalidStream ∧ Gen.Mbit = 64 ∧
+    Gen.responseWriteStreamExits = ["return msc.WriteStream(b,stream)", "return w.Write(b)"] := by decide
 
 /-- non-vacuity: a request with both identifiers zero, P bit set, on stream 3 -/
 example :
